@@ -97,6 +97,9 @@ func walkTree(rootGoitPath string, object *Object) ([]*Node, error) {
 				return nil, err
 			}
 			lineSplit = strings.SplitN(lineString, " ", 2)
+			if len(lineSplit) != 2 {
+				return nil, ErrInvalidTreeObject
+			}
 
 			mode := lineSplit[0]
 			if mode == "040000" {
@@ -159,6 +162,9 @@ func walkTree(rootGoitPath string, object *Object) ([]*Node, error) {
 			// last line
 			if len(lineSplit) == 1 {
 				break
+			}
+			if len(lineSplit) != 3 {
+				return nil, ErrInvalidTreeObject
 			}
 
 			mode := lineSplit[1]
